@@ -471,11 +471,13 @@ pub fn run(part: &mut Part) {
                 Op::app(QA, Pos::Auto, Sz::S3),
                 Op::app(QA, Pos::Auto, Sz::S0),
                 Op::Append { q: QA, pos: Pos::Auto, sizes: vec![Sz::S5, Sz::L, Sz::S1] },
+                Op::Trunc { q: QA, at: Tr::First },
+                Op::Trunc { q: QA, at: Tr::Mid },
                 Op::Reopen,
             ];
             let nseeds = seeds.len();
             let profiles = vec![prof("cursor@file_end-k (k=0..40) x appends", seeds, alpha, if TINY { if q { 2 } else { 3 } } else if q { 1 } else { 2 })];
-            let mon = Monitors { property: "C07", conformance: true, reopen_state: true, final_reopen: true, ..Default::default() };
+            let mon = Monitors { property: "C07", conformance: true, accessors: true, reopen_state: true, final_reopen: true, ..Default::default() };
             let frame_bounds = part.bounds.clone();
             run_seq(part, profiles, vec![mon]);
             let seq_bounds = part.bounds.clone();
@@ -580,7 +582,7 @@ fn monitors_for(property: &str, policy: PolicyCfg, hash_seed: u64) -> Option<Mon
         "C04" => Monitors { property: "C04", c04: true, final_reopen: true, final_appends: true, ..base },
         "C05" => Monitors { property: "C05", conformance: true, accessors: true, ..base },
         "C06" => Monitors { property: "C06", c06: true, ..base },
-        "C07" => Monitors { property: "C07", conformance: true, reopen_state: true, final_reopen: true, ..base },
+        "C07" => Monitors { property: "C07", conformance: true, accessors: true, reopen_state: true, final_reopen: true, ..base },
         "C13" => Monitors { property: "C13", c13: true, ..base },
         "C15" => Monitors { property: "C15", c15: true, ..base },
         "C16" => Monitors { property: "C16", c16: true, ..base },
